@@ -441,15 +441,20 @@ ___
 self.elementary_expressions = ElementsTuple(expressions=None, indices=_I, names=_N)
 """)
     ok = b is not None
+    not_first = None
     if not ok:
         # any other order of the five lists that still starts with the free parameters is accepted
         for n in walk_no_nested(prep.node):
             if isinstance(n, ast.Assign) and isinstance(n.value, ast.BinOp):
                 parts = [x.strip() for x in unparse(n.value).replace('\n', ' ').split('+')]
-                if sorted(parts) == sorted(['self.free_betas.names', 'self.fixed_betas.names', 'self.random_variables.names', 'self.draws.names', 'self.variables.names']) and parts[0] == 'self.free_betas.names':
+                if sorted(parts) == sorted(['self.free_betas.names', 'self.fixed_betas.names', 'self.random_variables.names', 'self.draws.names', 'self.variables.names']):
                     nm = unparse(n.targets[0])
-                    ok = has(prep.node, f'_I = {{_V: _K for _K, _V in enumerate({nm})}}\n___\nself.elementary_expressions = ElementsTuple(expressions=None, indices=_I, names={nm})')
-    ctx.add(rule, 'IdManager.prepare:free-first', ok, prep, 'global numbering = position in free + fixed + random variables + draws + variables, free parameters first (the engine differentiates w.r.t. literal ids 0..n-1)' if ok else 'the global numbering no longer enumerates a concatenation that starts with the free parameters', 'free-first')
+                    numbered = has(prep.node, f'_I = {{_V: _K for _K, _V in enumerate({nm})}}\n___\nself.elementary_expressions = ElementsTuple(expressions=None, indices=_I, names={nm})')
+                    if parts[0] == 'self.free_betas.names':
+                        ok = numbered
+                    elif numbered:
+                        not_first = f'the global numbering enumerates {" + ".join(p_.split(".")[1] for p_ in parts)}: the free parameters do not come first, while the engine differentiates with respect to the literal ids 0..n-1'
+    ctx.add(rule, 'IdManager.prepare:free-first', ok if (ok or not_first) else None, prep, not_first if not_first else 'global numbering = position in free + fixed + random variables + draws + variables, free parameters first (the engine differentiates w.r.t. literal ids 0..n-1)' if ok else 'the global numbering no longer enumerates a concatenation that starts with the free parameters', 'free-first', positive=bool(not_first))
     eni = prog.func('expressions.idmanager', 'expressions_names_indices')
     pn = eni.positional_params()[0]
     ok = body_is(eni.body, f"""
@@ -463,7 +468,12 @@ _N = sorted({pn})
 _I = {{_V: _K for _K, _V in enumerate(_N)}}
 return ElementsTuple(expressions={pn}, indices=_I, names=_N)
 """) is not None
-    ctx.add(rule, 'expressions_names_indices', ok, eni, 'names are sorted and indices[name] is the position in that sorted list' if ok else 'the canonical order is no longer the sorted list of names with indices = enumerate(names)', 'sorted')
+    unsorted = None
+    if not ok:
+        hb = find(eni.node, f'_N = __SRC\n___\nreturn ElementsTuple(expressions={pn}, indices=__IDX, names=_N)')
+        if hb is not None and not (isinstance(hb['__SRC'][1], ast.Call) and call_name(hb['__SRC'][1]) == 'sorted'):
+            unsorted = f'the names are {unparse(hb["__SRC"][1])}, not sorted({pn}): the canonical order of the parameters then depends on the order in which they appear in the formula'
+    ctx.add(rule, 'expressions_names_indices', ok if (ok or unsorted) else None, eni, unsorted if unsorted else 'names are sorted and indices[name] is the position in that sorted list' if ok else 'the canonical order is no longer the sorted list of names with indices = enumerate(names)', 'sorted', positive=bool(unsorted))
     # BIOGEME sites
     B = prog.cls('biogeme', 'BIOGEME')
     f = B.methods['change_init_values']
